@@ -258,7 +258,7 @@ func (sw *sigWorld) outer(st *Stack, in *tar.Header) *tar.Header {
 func init() {
 	Register(&Check{
 		ID: "C08", Level: "fault_enumeration", Tech: "deterministic simulation: at-rest corruption of the simulated drive (single-byte alterations enumerated over header bytes, sampled over content) and structured forgeries, then rebuild + restore in a fresh instance",
-		Rule:      "tapes written by small generated histories under {minisign,pgp} x {none,age,pgp} x compression subset; alterations: every header/PAX byte at a stride (thorough: every byte) x masks {0x01,0x80,0xFF}, sampled content bytes; forgeries: embedded header edited with kept / removed / garbage / re-encoded / non-signature-packet signature, signatures swapped between records, record signed with a second key, unsigned plain tar member appended and spliced, records duplicated, fields of the unsigned OUTER tar header edited with the checksum recomputed (size 0 / half / +512, typeflag); oracle: every header the indexer accepts (onHeader after verification) is field-for-field one the writer signed, every restore fails or returns the content signed under that header; an evaluation = one altered tape; non-trivial = the alteration changed a header or content byte of a record; distinct by (config, alteration kind, record, offset)",
+		Rule:      "tapes written by small generated histories under {minisign,pgp} x {none,age,pgp} x compression subset; alterations: every header/PAX byte at a stride (thorough: every byte) x masks {0x01,0x80,0xFF}, sampled content bytes; forgeries: embedded header edited with kept / removed / garbage / re-encoded / non-signature-packet signature, signatures swapped between records, record signed with a second key, unsigned plain tar member appended and spliced, records duplicated, fields of the unsigned OUTER tar header edited with the checksum recomputed (size 0 / half / +512, typeflag), unsigned pax global-header records carrying STFS delete / rename / create actions for a signed entry; oracle: every header the indexer accepts (onHeader after verification) is field-for-field one the writer signed, every restore fails or returns the content signed under that header; an evaluation = one altered tape; non-trivial = the alteration changed a header or content byte of a record; distinct by (config, alteration kind, record, offset)",
 		QuickRuns: 120, QuickSecs: 80, ThoroughRuns: 600, ThoroughSecs: 1700,
 		Assumptions: []string{"replay/reordering/dropping of validly signed records is not forbidden by the property: counted, not judged", "the attacker knows the encryption recipient (public key) but not the signing identity"},
 		Gen: func(r *rand.Rand, tier string, relax Relax) *Case {
@@ -334,6 +334,13 @@ func evalC08(t *testing.T, c *Case, st *Stats, relax Relax) *Violation {
 				}
 			}
 			alts = append(alts, alt{"append-unsigned", [3]int64{}}, alt{"splice-unsigned", [3]int64{1, 0, 0}})
+			// unsigned pax GLOBAL header records (typeflag 'g', as pax / git archive write them) that
+			// carry STFS action records for a signed entry: delete it, rename it, re-create it
+			for ri := range sw.recs {
+				for k := int64(0); k < 3; k++ {
+					alts = append(alts, alt{"append-global", [3]int64{int64(ri), k, 0}})
+				}
+			}
 			// the outer tar header is an unsigned wrapper: its fields edited with the tar
 			// checksum recomputed (a single flipped byte never gets past the checksum)
 			for ri, r := range sw.recs {
@@ -401,6 +408,34 @@ func alterTape(x *SeqCtx, sw *sigWorld, kind string, arg [3]int64) ([]byte, bool
 	ri := int(arg[0])
 	if ri >= len(sw.recs) {
 		return nil, false
+	}
+	if kind == "append-global" {
+		in, ok := sw.inner(x.St, sw.recs[ri].Hdr)
+		if !ok {
+			return nil, false
+		}
+		var emb tar.Header
+		if json.Unmarshal([]byte(in.PAXRecords[paxEmbedded]), &emb) != nil || emb.Name == "" {
+			return nil, false
+		}
+		recs := map[string]string{"path": emb.Name, "STFS.Version": "1"}
+		switch arg[1] {
+		case 0:
+			recs["STFS.Action"] = "DELETE"
+		case 1:
+			recs["STFS.Action"], recs["STFS.ReplacesName"], recs["STFS.ReplacesContent"] = "UPDATE", emb.Name, "false"
+			recs["path"] = "/forged-" + strings.TrimPrefix(emb.Name, "/")
+		case 2:
+			recs["STFS.Action"] = "CREATE"
+			recs["path"] = "/forged-" + strings.TrimPrefix(emb.Name, "/")
+		}
+		var buf bytes.Buffer
+		tw := tar.NewWriter(&buf)
+		if err := tw.WriteHeader(&tar.Header{Typeflag: tar.TypeXGlobalHeader, Name: "pax_global_header", PAXRecords: recs, Format: tar.FormatPAX}); err != nil {
+			return nil, false
+		}
+		tw.Close()
+		return append(append([]byte(nil), sw.tape...), buf.Bytes()...), true
 	}
 	if kind == "outer-size" || kind == "outer-typeflag" {
 		r := sw.recs[ri]
